@@ -367,9 +367,10 @@ package shaping
 //@ trusted newBreaker
 //@   ensures [fresh] fresh(result) && result.totalRunes == len(text) && !result.isUnusedWord && !result.isUnusedGrapheme
 //@   modifies *seg; all(rune); all(segmenter.breakAttr)
-//@ func LineWrapper.Prepare C13 C02 C03
+//@ func LineWrapper.Prepare C13 C02 C03 C04 C08
 //@   mode bv
 //@   ensures [mapping-invalidated] !l.mapper.valid
+//@   ensures [truncator-as-given] l.config.Truncator.Direction == config.Truncator.Direction && l.config.Truncator.Advance == config.Truncator.Advance && sameslice(l.config.Truncator.Glyphs, config.Truncator.Glyphs)
 //@   ensures [position] l.lineStartRune == 0 && l.more
 //@   ensures [config] l.config.TruncateAfterLines == config.TruncateAfterLines && l.config.Direction == config.Direction && l.config.BreakPolicy == config.BreakPolicy && l.config.TextContinues == config.TextContinues
 //@   ensures [truncating] l.truncating == (config.TruncateAfterLines > 0)
@@ -713,4 +714,15 @@ package shaping
 //@   ensures [keeps-compatible] implies(lang.UseScript(s), result == lang)
 //@   ensures [replaces] implies(!lang.UseScript(s) && has(language.ScriptToLang, s) && language.ScriptToLang[s] != 0, result == language.ScriptToLang[s])
 //@   ensures [else-unchanged] implies(!lang.UseScript(s) && !(has(language.ScriptToLang, s) && language.ScriptToLang[s] != 0), result == lang)
+//@   modifies nothing
+//
+// inclusiveGlyphRange: which glyphs hold the runes [start, breakAfter] of a run, read off the rune->glyph mapping.
+// The branch is decided by the PROGRESSION of the direction only (axis and orientation bits are irrelevant):
+// toward the top left the glyph order is the reverse of the rune order.
+//@ func inclusiveGlyphRange C02
+//@   mode bv
+//@   inline
+//@   requires [range] 0 <= start && start <= breakAfter && breakAfter < len(runeToGlyph)
+//@   ensures [forward] implies(!bool(dir.Progression()), glyphStart == runeToGlyph[start] && glyphEnd == ite(breakAfter+1 < len(runeToGlyph), runeToGlyph[breakAfter+1]-1, numGlyphs-1))
+//@   ensures [backward] implies(bool(dir.Progression()), glyphStart == runeToGlyph[breakAfter] && glyphEnd == ite(start >= 1, runeToGlyph[start-1]-1, numGlyphs-1))
 //@   modifies nothing
